@@ -1,8 +1,727 @@
-//! engine `header` (stub — to be written)
+//! engine `header` — C15 (stream header / magic block) and C08 (advertised size bound).
+//!
+//! `bvh header c15|c08|all --tier quick|thorough --seed N --out DIR`
+//!
+//! Correspondence lines (Lean driver `BV/Drive/Header.lean`):
+//!   header stream <q> <lgwin> <lw> <cat> <app> <dict> <magic> <hint> <inhex> <outhex>
+//!          real encoder (streaming API, params struct set directly, one FINISH call) on the
+//!          WHOLE grid; answer `<whole|prefix> <hex> lgwin=<d> bits=<b> magic=<0|1>` where the
+//!          d/b/magic fields of the implementation line come from the independent RFC reader below
+//!   header b128 <v>, header bound <start> <count>, header boundv <n>, header boundm <n> <t>
+//!   header stored <n> <gen>   (MakeUncompressedStream reached through the one-shot fallback)
+//!   header oneshot <n> <cap> <T|big>
+//!
+//! Search-stage oracles (real code only):
+//!   C15: declared window == clamp(requested) (max 18 at q0/q1) read by an independent RFC 7932
+//!        §9.1 reader; large-window header iff requested; libbrotlidec WITHOUT the large-window
+//!        option accepts iff not large-window; both decoders decode; magic block present with
+//!        the right bytes iff requested; inputs with matches at the far end of the window decode
+//!        under the declared window.
+//!   C08: bound formula vs an independent transcription + monotonicity; stored stream fits the
+//!        bound and its framing alone yields the input; one-shot contract for every buffer class
+//!        (Rust API and C ABI, canary behind the C buffer); never-flushed stream at q>=2 within
+//!        the bound.
+//!
+//! non-trivial case (rep.nontrivial): a configuration/input whose real output was produced without
+//! panic, parsed by the RFC reader and (where a decode applies) decoded to the input.
+//!
+//! Corpus: none (every case is enumerated or derived from the seed).
+use crate::prng::Rng;
 use crate::util::*;
+use crate::{dec, gdec};
+use brotli::enc::backward_references::BrotliEncoderMode;
+use brotli::enc::encode::{
+    BrotliEncoderDestroyInstance, BrotliEncoderMaxCompressedSize, BrotliEncoderMaxCompressedSizeMulti,
+    BrotliEncoderOperation, BrotliEncoderStateStruct,
+};
+use brotli::enc::interface;
+use brotli::enc::{BrotliEncoderParams, StandardAlloc};
+use brotli::InputReferenceMut;
+use std::panic::{catch_unwind, AssertUnwindSafe};
+
+fn nop_cb(
+    _a: &mut interface::PredictionModeContextMap<InputReferenceMut>,
+    _b: &mut [interface::StaticCommand],
+    _c: interface::InputPair,
+    _d: &mut StandardAlloc,
+) {
+}
+
+// ------------------------------------------------------------------------------------------
+// real encoder, streaming API
+// ------------------------------------------------------------------------------------------
+
+/// Feed `input` in `chunk`-byte PROCESS calls (the last one FINISH), never FLUSH.
+pub fn stream_encode(p: &BrotliEncoderParams, input: &[u8], chunk: usize) -> Result<Vec<u8>, String> {
+    let r = catch_unwind(AssertUnwindSafe(|| {
+        let mut s = BrotliEncoderStateStruct::new(StandardAlloc::default());
+        s.params = p.clone();
+        let mut out: Vec<u8> = Vec::new();
+        let mut buf = vec![0u8; 1 << 16];
+        let mut pos = 0usize;
+        let mut steps = 0usize;
+        let limit = 64 + 4 * (input.len() / chunk.max(1) + input.len() / buf.len() + 2);
+        let mut res: Result<(), String> = Ok(());
+        loop {
+            steps += 1;
+            if steps > limit {
+                res = Err("livelock".into());
+                break;
+            }
+            let end = (pos + chunk.max(1)).min(input.len());
+            let op = if end == input.len() { BrotliEncoderOperation::BROTLI_OPERATION_FINISH } else { BrotliEncoderOperation::BROTLI_OPERATION_PROCESS };
+            let mut avail_in = end - pos;
+            let mut in_off = 0usize;
+            let mut avail_out = buf.len();
+            let mut out_off = 0usize;
+            let mut total = None;
+            let ok = s.compress_stream(op, &mut avail_in, &input[pos..end], &mut in_off, &mut avail_out, &mut buf, &mut out_off, &mut total, &mut nop_cb);
+            out.extend_from_slice(&buf[..out_off]);
+            pos += in_off;
+            if !ok {
+                res = Err("compress_stream returned false".into());
+                break;
+            }
+            if s.is_finished() {
+                break;
+            }
+        }
+        BrotliEncoderDestroyInstance(&mut s);
+        res.map(|_| out)
+    }));
+    match r {
+        Ok(x) => x,
+        Err(_) => Err("panic".into()),
+    }
+}
+
+// ------------------------------------------------------------------------------------------
+// independent reader: RFC 7932 section 9.1 / 9.2 (+ large-window extension), no entropy decoding
+// ------------------------------------------------------------------------------------------
+
+pub struct BitReader<'a> {
+    pub data: &'a [u8],
+    pub pos: usize, // in bits
+}
+impl<'a> BitReader<'a> {
+    pub fn new(data: &'a [u8]) -> Self { BitReader { data, pos: 0 } }
+    pub fn bits(&mut self, n: usize) -> Option<u64> {
+        if self.pos + n > self.data.len() * 8 { return None; }
+        let mut v = 0u64;
+        for i in 0..n {
+            let p = self.pos + i;
+            v |= (((self.data[p >> 3] >> (p & 7)) & 1) as u64) << i;
+        }
+        self.pos += n;
+        Some(v)
+    }
+    /// skip to a byte boundary; the skipped bits must be zero
+    pub fn align(&mut self) -> Option<()> {
+        while self.pos & 7 != 0 {
+            if self.bits(1)? != 0 { return None; }
+        }
+        Some(())
+    }
+}
+
+/// WBITS per RFC 7932 section 9.1; the pattern 0010001 (reserved in the RFC) opens the
+/// large-window extension: one zero bit, then 6 bits of lgwin in 10..=30.
+/// Returns (lgwin, large).
+pub fn read_wbits(r: &mut BitReader) -> Option<(u32, bool)> {
+    if r.bits(1)? == 0 { return Some((16, false)); }
+    let n = r.bits(3)?;
+    if n != 0 { return Some((17 + n as u32, false)); }
+    let m = r.bits(3)?;
+    if m == 0 { return Some((17, false)); }
+    if m == 1 {
+        if r.bits(1)? != 0 { return None; }
+        let w = r.bits(6)? as u32;
+        if !(10..=30).contains(&w) { return None; }
+        return Some((w, true));
+    }
+    Some((8 + m as u32, false))
+}
+
+#[derive(Debug, Clone, PartialEq)]
+pub enum Block {
+    Meta(Vec<u8>),
+    Raw(Vec<u8>),
+    LastEmpty,
+    /// a compressed meta-block starts at this bit (MLEN given): the reader stops here
+    Compressed { at: usize, mlen: usize, last: bool },
+}
+
+/// Read meta-block headers while they need no entropy decoding.
+pub fn read_framing(r: &mut BitReader) -> Option<Vec<Block>> {
+    let mut v = vec![];
+    loop {
+        let at = r.pos;
+        let last = r.bits(1)? == 1;
+        if last && r.bits(1)? == 1 {
+            r.align()?;
+            v.push(Block::LastEmpty);
+            return Some(v);
+        }
+        let mn = r.bits(2)?;
+        if mn == 3 {
+            if last { return None; }
+            if r.bits(1)? != 0 { return None; }
+            let sb = r.bits(2)? as usize;
+            let len = if sb == 0 { 0 } else {
+                let x = r.bits(8 * sb)?;
+                if sb > 1 && (x >> (8 * (sb - 1))) == 0 { return None; }
+                x as usize + 1
+            };
+            r.align()?;
+            if r.pos / 8 + len > r.data.len() { return None; }
+            v.push(Block::Meta(r.data[r.pos / 8..r.pos / 8 + len].to_vec()));
+            r.pos += 8 * len;
+            continue;
+        }
+        let nib = 4 + mn as usize;
+        let x = r.bits(4 * nib)?;
+        if nib > 4 && (x >> (4 * (nib - 1))) == 0 { return None; }
+        let mlen = x as usize + 1;
+        if !last && r.bits(1)? == 1 {
+            r.align()?;
+            if r.pos / 8 + mlen > r.data.len() { return None; }
+            v.push(Block::Raw(r.data[r.pos / 8..r.pos / 8 + mlen].to_vec()));
+            r.pos += 8 * mlen;
+            continue;
+        }
+        v.push(Block::Compressed { at, mlen, last });
+        return Some(v);
+    }
+}
+
+pub fn base128_decode(b: &[u8]) -> Option<u64> {
+    let mut v: u128 = 0;
+    for (i, x) in b.iter().enumerate() {
+        v |= ((x & 0x7f) as u128) << (7 * i);
+        let more = x & 0x80 != 0;
+        if more != (i + 1 < b.len()) { return None; }
+    }
+    if b.is_empty() || v >> 64 != 0 { return None; }
+    Some(v as u64)
+}
+
+// ------------------------------------------------------------------------------------------
+// specification side (independent transcriptions)
+// ------------------------------------------------------------------------------------------
+
+/// the window a stream must declare
+pub fn spec_declared(q: i32, lgwin: i32, lw: bool) -> u32 {
+    let hi = if lw { 30 } else { 24 };
+    let w = lgwin.clamp(10, hi);
+    let qc = q.clamp(0, 11);
+    (if qc <= 1 { w.max(18) } else { w }) as u32
+}
+/// third magic byte by concatenation mode
+pub fn spec_mode_byte(cat: bool, app: bool, dict: bool) -> u8 {
+    if cat && !dict { 0x81 } else if app || cat { 0x82 } else { 0x80 }
+}
+/// closed form of the advertised bound for n < 2^54
+pub fn spec_bound(n: u64) -> u64 {
+    if n == 0 { 17 } else if n < (1 << 14) { n + 22 } else { n + 4 * (n >> 14) + 23 }
+}
+
+pub fn gen_bytes(n: usize, gen: u64) -> Vec<u8> {
+    let mut st: u64 = gen.wrapping_mul(0x9E3779B97F4A7C15).wrapping_add(1);
+    let mut v = Vec::with_capacity(n);
+    for _ in 0..n {
+        v.push((st >> 56) as u8);
+        st = st.wrapping_mul(6364136223846793005).wrapping_add(1442695040888963407);
+    }
+    v
+}
+
+fn b(x: bool) -> u8 { x as u8 }
+
+#[derive(Clone, Copy)]
+struct Cfg { q: i32, lgwin: i32, lw: bool, cat: bool, app: bool, dict: bool, magic: bool, hint: u64 }
+impl Cfg {
+    fn params(&self) -> BrotliEncoderParams {
+        let mut p = BrotliEncoderParams::default();
+        p.quality = self.q;
+        p.lgwin = self.lgwin;
+        p.large_window = self.lw;
+        p.catable = self.cat;
+        p.appendable = self.app;
+        p.use_dictionary = self.dict;
+        p.magic_number = self.magic;
+        p.size_hint = self.hint as usize;
+        p
+    }
+    fn line(&self) -> String {
+        format!("{} {} {} {} {} {} {} {}", self.q, self.lgwin, b(self.lw), b(self.cat), b(self.app), b(self.dict), b(self.magic), self.hint)
+    }
+    fn json(&self, input: &[u8]) -> String {
+        format!("{{\"quality\":{},\"lgwin\":{},\"large_window\":{},\"catable\":{},\"appendable\":{},\"use_dictionary\":{},\"magic_number\":{},\"size_hint\":\"{}\",\"input\":{}}}",
+            self.q, self.lgwin, self.lw, self.cat, self.app, self.dict, self.magic, self.hint, jstr(&hex(&input[..input.len().min(64)])))
+    }
+}
+
+const HINTS: [u64; 7] = [0, 1, 127, 128, 1 << 14, 1 << 21, (1u64 << 32) - 1];
+
+/// one configuration x one input: correspondence line + oracles
+fn c15_case(c: &Cfg, input: &[u8], lines: &mut Vec<(String, String)>, rep: &mut Report, decode: bool) {
+    rep.evaluations += 1;
+    let p = c.params();
+    let out = match stream_encode(&p, input, usize::MAX / 2) {
+        Ok(o) => o,
+        Err(e) => {
+            lines.push((format!("header stream {} {} -", c.line(), hex(input)), e.clone()));
+            rep.violation(&format!("header:c15:encoder-{}", if e == "panic" { "panic" } else { "failed" }), &e, c.json(input));
+            return;
+        }
+    };
+    // independent reader
+    let mut r = BitReader::new(&out);
+    let wb = read_wbits(&mut r);
+    let nbits = r.pos;
+    let (declared, large) = match wb {
+        Some(x) => x,
+        None => {
+            rep.violation("header:c15:unreadable-wbits", "the RFC reader rejects the window bits", c.json(input));
+            (0, false)
+        }
+    };
+    let framing = read_framing(&mut r);
+    let first_meta: Option<Vec<u8>> = match &framing {
+        Some(v) => match v.first() { Some(Block::Meta(m)) => Some(m.clone()), _ => None },
+        None => None,
+    };
+    let is_magic = first_meta.as_ref().map_or(false, |m| m.len() >= 4 && m[0] == 0xe1 && m[1] == 0x97 && (m[2] & 0xf0) == 0x80);
+    // correspondence
+    let whole = input.is_empty() || (c.cat && input.len() <= 2);
+    let shown = if whole { &out[..] } else { &out[..out.len().min(40)] };
+    lines.push((
+        format!("header stream {} {} {}", c.line(), hex(input), hex(shown)),
+        format!("{} {} lgwin={} bits={} magic={}", if whole { "whole" } else { "prefix" }, hex(shown), declared, nbits, b(is_magic)),
+    ));
+    // ---- oracles
+    let want = spec_declared(c.q, c.lgwin, c.lw);
+    if wb.is_some() && declared != want {
+        rep.violation("header:c15:declared-window", &format!("declared lgwin {} != clamp(requested) {}", declared, want), c.json(input));
+    }
+    if wb.is_some() && large != c.lw {
+        rep.violation("header:c15:large-header-mismatch", &format!("large-window header {} but large_window requested {}", large, c.lw), c.json(input));
+    }
+    rep.count(&format!("c15.header_bits.{}", nbits));
+    if c.magic {
+        let hint_eff = if c.hint != 0 { c.hint } else { (input.len() as u64).min(1 << 30) };
+        match &first_meta {
+            Some(m) if is_magic => {
+                let ok = m[2] == spec_mode_byte(c.cat, c.app, c.dict) && m[3] == brotli::VERSION && base128_decode(&m[4..]) == Some(hint_eff);
+                if !ok {
+                    rep.violation("header:c15:magic-content", &format!("magic block payload {} does not state mode {:02x}, version {}, size hint {}", hex(m), spec_mode_byte(c.cat, c.app, c.dict), brotli::VERSION, hint_eff), c.json(input));
+                } else {
+                    rep.count("c15.magic.ok");
+                    rep.count(&format!("c15.magic.hint_bytes.{}", m.len() - 4));
+                }
+            }
+            _ => {
+                let qc = c.q.clamp(0, 11);
+                let sig = if qc <= 1 && !c.cat { "header:c15:magic-missing:q0-q1-fast-path" } else { "header:c15:magic-missing" };
+                rep.violation(sig, "magic_number requested but the stream does not start with the magic metadata block", c.json(input));
+            }
+        }
+    } else if is_magic {
+        rep.violation("header:c15:magic-unrequested", "magic block present although magic_number is off", c.json(input));
+    }
+    if !decode { rep.nontrivial += 1; return; }
+    // libbrotlidec without the large-window option accepts iff not large-window
+    if gdec::available() {
+        let max = input.len() + (1 << 16);
+        let plain = gdec::decode(&out, false, max);
+        match (&plain, c.lw) {
+            (gdec::GResult::Ok(v), false) => { if v != input { rep.violation("header:c15:decode-mismatch", "libbrotlidec decoded different bytes", c.json(input)); } }
+            (gdec::GResult::Ok(_), true) => rep.violation("header:c15:large-accepted-by-plain-decoder", "libbrotlidec without the large-window option accepted a large-window stream", c.json(input)),
+            (_, false) => rep.violation("header:c15:plain-decoder-rejects", "libbrotlidec (no large-window option) rejects a stream made without large_window", c.json(input)),
+            (_, true) => rep.count("c15.large_rejected_by_plain_decoder"),
+        }
+    }
+    match dec::decode_both(&out, c.lw, input) {
+        Ok(()) => { rep.nontrivial += 1; }
+        Err(e) => rep.violation("header:c15:undecodable", &e, c.json(input)),
+    }
+}
+
+fn run_c15(args: &Args, corr: &mut Corr, rep: &mut Report) {
+    let thorough = args.tier == "thorough";
+    let seed = args.seed;
+    // the whole grid: task = (quality, lgwin)
+    let tasks: Vec<(i32, i32)> = (0..=11).flat_map(|q| (-5..=40).map(move |w| (q, w))).collect();
+    let n = tasks.len();
+    let res = par_tasks(n, move |i| {
+        let (q, lgwin) = tasks[i];
+        let mut lines = vec![];
+        let mut rep = Report::default();
+        let text: &[u8] = b"the quick brown fox jumps over the lazy dog 0123456789";
+        for lw in [false, true] {
+            for flags in 0..8u32 {
+                let (cat, app, dict) = (flags & 1 != 0, flags & 2 != 0, flags & 4 != 0);
+                for magic in [false, true] {
+                    for (hi, &hint) in HINTS.iter().enumerate() {
+                        let c = Cfg { q, lgwin, lw, cat, app, dict, magic, hint };
+                        c15_case(&c, &[], &mut lines, &mut rep, true);
+                        c15_case(&c, b"ab", &mut lines, &mut rep, true);
+                        // longer inputs: every configuration in the thorough tier, a third of them otherwise
+                        if thorough || (hi + flags as usize + (lgwin + 5) as usize) % 3 == 0 {
+                            c15_case(&c, b"a", &mut lines, &mut rep, true);
+                            c15_case(&c, text, &mut lines, &mut rep, true);
+                        }
+                    }
+                }
+            }
+        }
+        (lines, rep)
+    });
+    for (lines, r) in res {
+        for (a, bb) in lines { corr.case(&a, &bb); }
+        rep.merge(r);
+    }
+    // inputs with matches at the far end of the window: a decoder limited to the declared window
+    let mut far: Vec<(i32, i32, bool, usize)> = vec![];
+    for q in 0..=11 {
+        let top = if thorough { 20 } else { 17 };
+        for lgwin in 10..=top {
+            for delta in [0usize, 1] { far.push((q, lgwin, false, delta)); }
+        }
+        far.push((q, 12, true, 0));
+        if thorough && q <= 9 { far.push((q, 25, true, 0)); }
+    }
+    let nf = far.len();
+    let res = par_tasks(nf, move |i| {
+        let (q, lgwin, lw, delta) = far[i];
+        let mut rep = Report::default();
+        let mut rng = Rng::new(seed ^ 0xfa5 ^ ((i as u64) << 20));
+        let win = 1usize << lgwin.min(22);
+        let period = win - 16 - delta;
+        let mut block = vec![0u8; period];
+        for x in block.iter_mut() { *x = rng.next() as u8; }
+        let mut input = Vec::with_capacity(3 * period + 5);
+        for _ in 0..3 { input.extend_from_slice(&block); }
+        input.extend_from_slice(b"tail!");
+        let c = Cfg { q, lgwin, lw, cat: false, app: false, dict: true, magic: false, hint: 0 };
+        rep.evaluations += 1;
+        match stream_encode(&c.params(), &input, 60000) {
+            Err(e) => rep.violation("header:c15:encoder-failed", &e, c.json(&input)),
+            Ok(out) => {
+                let mut r = BitReader::new(&out);
+                let wb = read_wbits(&mut r);
+                if wb != Some((spec_declared(q, lgwin, lw), lw)) {
+                    rep.violation("header:c15:declared-window", &format!("declared {:?}", wb), c.json(&input));
+                }
+                if out.len() < input.len() / 2 { rep.count("c15.far.used_long_distance"); }
+                match dec::decode_both(&out, lw, &input) {
+                    Ok(()) => { rep.nontrivial += 1; rep.count("c15.far.decoded"); }
+                    Err(e) => rep.violation("header:c15:window-exceeded-or-undecodable", &e, c.json(&input)),
+                }
+            }
+        }
+        rep
+    });
+    for r in res { rep.merge(r); }
+    // base-128 (hook)
+    let mut vals: Vec<u64> = (0..300).collect();
+    for k in 0..64 { let p = 1u64 << k; vals.extend_from_slice(&[p.wrapping_sub(1), p, p + 1]); }
+    vals.push(u64::MAX);
+    let mut rng = Rng::new(seed ^ 0xb128);
+    for _ in 0..2000 { let sh = rng.below(64); vals.push(rng.next() >> sh); }
+    for v in vals {
+        let (cnt, arr) = brotli::enc::brotli_bit_stream::verif_hooks::base_128(v);
+        corr.case(&format!("header b128 {}", v), &hex(&arr[..cnt]));
+        rep.evaluations += 1;
+        if base128_decode(&arr[..cnt]) != Some(v) || cnt > 10 {
+            rep.violation("header:c15:base128", "encode_base_128 does not round-trip", format!("{{\"value\":\"{}\"}}", v));
+        } else { rep.nontrivial += 1; rep.count(&format!("c15.b128.len.{}", cnt)); }
+    }
+}
+
+// ------------------------------------------------------------------------------------------
+// C08
+// ------------------------------------------------------------------------------------------
+
+fn bound_digest(start: u64, count: u64) -> u64 {
+    let mut h = FNV_INIT;
+    for n in start..start + count { h = fnv_step(h, BrotliEncoderMaxCompressedSize(n as usize) as u64); }
+    h
+}
+
+/// one-shot call, Rust API. Returns (ret, encoded_size, bytes) or Err(panic)
+fn oneshot_rust(q: i32, lgwin: i32, input: &[u8], cap: usize) -> Result<(i32, usize, Vec<u8>), String> {
+    let r = catch_unwind(AssertUnwindSafe(|| {
+        let mut buf = vec![0xa5u8; cap];
+        let mut size = cap;
+        let mut m8 = StandardAlloc::default();
+        let ret = brotli::enc::encode::BrotliEncoderCompress(StandardAlloc::default(), &mut m8, q, lgwin, BrotliEncoderMode::BROTLI_MODE_GENERIC, input.len(), input, &mut size, &mut buf[..], &mut nop_cb);
+        let keep = size.min(cap);
+        (ret, size, buf[..keep].to_vec())
+    }));
+    r.map_err(|_| "panic".to_string())
+}
+
+/// one-shot call, C ABI; the buffer is followed by a canary region. Returns (ret, size, bytes, canary_intact)
+fn oneshot_c(q: i32, lgwin: i32, input: &[u8], cap: usize) -> (i32, usize, Vec<u8>, bool) {
+    const CANARY: usize = 64;
+    let mut buf = vec![0x5au8; cap + CANARY];
+    let mut size = cap;
+    let ret = unsafe {
+        brotli::ffi::compressor::BrotliEncoderCompress(q, lgwin, brotli::ffi::compressor::BrotliEncoderMode::BROTLI_MODE_GENERIC, input.len(), if input.is_empty() { std::ptr::null() } else { input.as_ptr() }, &mut size, buf.as_mut_ptr())
+    };
+    let intact = buf[cap..].iter().all(|&x| x == 0x5a);
+    let keep = size.min(cap);
+    (ret, size, buf[..keep].to_vec(), intact)
+}
+
+fn is_stored(out: &[u8]) -> bool { out.len() >= 2 && out[0] == 0x21 && out[1] == 0x03 }
+
+/// framing-only decode (no entropy decoding): Some(payload) if the stream consists of
+/// uncompressed / metadata / empty-last blocks only
+fn framing_payload(out: &[u8]) -> Option<(u32, Vec<Block>, Vec<u8>)> {
+    let mut r = BitReader::new(out);
+    let (w, _) = read_wbits(&mut r)?;
+    let blocks = read_framing(&mut r)?;
+    if !matches!(blocks.last(), Some(Block::LastEmpty)) || r.pos != out.len() * 8 { return None; }
+    let mut v = vec![];
+    for bl in &blocks { if let Block::Raw(x) = bl { v.extend_from_slice(x); } }
+    Some((w, blocks, v))
+}
+
+fn content(kind: u32, n: usize, rng: &mut Rng) -> Vec<u8> {
+    let mut v = Vec::with_capacity(n);
+    match kind {
+        0 => { for _ in 0..n { v.push(rng.next() as u8); } }                      // incompressible
+        1 => { for _ in 0..n { v.push((rng.next() % 240) as u8); } }              // just below the entropy threshold
+        2 => {                                                                    // random with sparse short matches
+            while v.len() < n {
+                if v.len() > 64 && rng.chance(1, 24) { let d = rng.range(4, 64) as usize; for _ in 0..4 { let x = v[v.len() - d]; v.push(x); } } else { v.push(rng.next() as u8); }
+            }
+            v.truncate(n);
+        }
+        3 => { while v.len() < n { let z = rng.chance(1, 2); for _ in 0..1024 { v.push(if z { 0 } else { rng.next() as u8 }); } } v.truncate(n); } // alternating
+        _ => { for _ in 0..n { v.push((rng.next() % 253) as u8); } }
+    }
+    v
+}
+
+struct OsCase { q: i32, lgwin: i32, n: usize, kind: u32, gen: Option<u64> }
+
+fn oneshot_case(c: &OsCase, seed: u64, idx: usize, lines: &mut Vec<(String, String)>, rep: &mut Report) {
+    let mut rng = Rng::new(seed ^ 0x05c8 ^ ((idx as u64) << 20));
+    let input = match c.gen { Some(g) => gen_bytes(c.n, g), None => content(c.kind, c.n, &mut rng) };
+    let n = input.len();
+    let bound = BrotliEncoderMaxCompressedSize(n);
+    let case = |cap: usize, api: &str| format!("{{\"api\":{},\"quality\":{},\"lgwin\":{},\"n\":{},\"content\":{},\"gen\":{},\"cap\":{},\"seed\":{},\"idx\":{}}}", jstr(api), c.q, c.lgwin, n, c.kind, c.gen.map_or(-1i64, |g| g as i64), cap, seed, idx);
+    // reference run: a buffer comfortably above the bound
+    rep.evaluations += 1;
+    let big = match oneshot_rust(c.q, c.lgwin, &input, bound + 64) {
+        Ok(x) => x,
+        Err(e) => { rep.violation("header:c08:oneshot-panic", &e, case(bound + 64, "rust")); return; }
+    };
+    if big.0 != 1 { rep.violation("header:c08:oneshot-fails-above-bound", "buffer >= bound but the call reports failure", case(bound + 64, "rust")); return; }
+    if big.1 > bound { rep.violation("header:c08:oneshot-exceeds-bound", &format!("wrote {} > bound {}", big.1, bound), case(bound + 64, "rust")); }
+    let large = c.lgwin > 24;
+    if let Err(e) = dec::decode_both(&big.2, large, &input) { rep.violation("header:c08:oneshot-undecodable", &e, case(bound + 64, "rust")); return; }
+    rep.nontrivial += 1;
+    let stored = n > 0 && is_stored(&big.2);
+    let t_tok = if stored { "big".to_string() } else { big.1.to_string() };
+    if stored {
+        rep.count("c08.oneshot.fallback_to_stored");
+        // the framing alone must yield the input, and the chunking must follow the 2^24 rule
+        match framing_payload(&big.2) {
+            Some((w, blocks, payload)) => {
+                if payload != input || w != 10 { rep.violation("header:c08:stored-stream-wrong", "stored stream does not carry the input", case(bound + 64, "rust")); }
+                let raws: Vec<usize> = blocks.iter().filter_map(|bl| if let Block::Raw(x) = bl { Some(x.len()) } else { None }).collect();
+                let want: Vec<usize> = { let mut v = vec![]; let mut left = n; while left > 0 { let ch = left.min(1 << 24); v.push(ch); left -= ch; } v };
+                if raws != want { rep.violation("header:c08:stored-chunking", &format!("chunks {:?}", raws), case(bound + 64, "rust")); }
+                rep.count(&format!("c08.stored.chunks.{}", raws.len()));
+            }
+            None => rep.violation("header:c08:stored-stream-unparsable", "framing reader rejects the stored stream", case(bound + 64, "rust")),
+        }
+        if let Some(g) = c.gen {
+            let o = &big.2;
+            let mut h = FNV_INIT;
+            for &x in o.iter() { h = fnv_step(h, x as u64); }
+            lines.push((format!("header stored {} {}", n, g), format!("{} {:016x} {} {}", o.len(), h, hex(&o[..o.len().min(16)]), hex(&o[o.len() - o.len().min(8)..]))));
+        }
+    } else {
+        rep.count("c08.oneshot.stream_result");
+        if c.gen.is_some() { rep.count("c08.stored.unreached_through_public_api"); }
+    }
+    // buffer-size classes
+    let t = big.1;
+    let mut caps: Vec<usize> = vec![0, 1, 8.min(bound - 1), bound - 1, bound, bound + 1];
+    if n > 0 { caps.push(n / 2); caps.push(n.min(bound - 1)); }
+    if !stored { caps.extend_from_slice(&[t.saturating_sub(1), t, (t + 1).min(bound - 1)]); }
+    caps.sort();
+    caps.dedup();
+    for cap in caps {
+        for api in ["rust", "c"] {
+            rep.evaluations += 1;
+            let (ret, size, bytes, intact) = if api == "rust" {
+                match oneshot_rust(c.q, c.lgwin, &input, cap) { Ok((r, s, by)) => (r, s, by, true), Err(e) => { rep.violation("header:c08:oneshot-panic", &e, case(cap, api)); continue; } }
+            } else { oneshot_c(c.q, c.lgwin, &input, cap) };
+            if !intact { rep.violation("header:c08:writes-past-buffer", "canary behind the output buffer overwritten", case(cap, api)); }
+            let kind;
+            if ret != 0 {
+                if size > cap { rep.violation("header:c08:size-exceeds-buffer", &format!("reports {} bytes in a {}-byte buffer", size, cap), case(cap, api)); }
+                if size > bound { rep.violation("header:c08:oneshot-exceeds-bound", &format!("wrote {} > bound {}", size, bound), case(cap, api)); }
+                if bytes == big.2 { kind = if n == 0 { "empty" } else if stored { "stored" } else { "stream" }; }
+                else if n > 0 && is_stored(&bytes) {
+                    kind = "stored";
+                    if framing_payload(&bytes).map(|x| x.2) != Some(input.clone()) { rep.violation("header:c08:stored-stream-wrong", "stored stream does not carry the input", case(cap, api)); }
+                } else {
+                    kind = "other";
+                    if let Err(e) = dec::decode_both(&bytes, large, &input) { rep.violation("header:c08:oneshot-undecodable", &e, case(cap, api)); }
+                }
+                rep.count(&format!("c08.oneshot.ok.{}", kind));
+            } else {
+                if cap >= bound { rep.violation("header:c08:oneshot-fails-above-bound", "buffer >= bound but the call reports failure", case(cap, api)); }
+                kind = if cap == 0 { "zero-cap" } else { "too-small" };
+                rep.count(&format!("c08.oneshot.fail.{}", kind));
+            }
+            if cap == 0 && ret != 0 { rep.violation("header:c08:zero-buffer-success", "success with an empty buffer", case(cap, api)); }
+            // on failure *encoded_size is 0 except for the zero-capacity early return (left untouched = 0)
+            lines.push((format!("header oneshot {} {} {}", n, cap, t_tok), format!("{} {} {}", ret, size, kind)));
+        }
+    }
+}
+
+fn run_c08(args: &Args, corr: &mut Corr, rep: &mut Report) {
+    let thorough = args.tier == "thorough";
+    let seed = args.seed;
+    // ---- (a) the bound formula, digest protocol
+    let mut ranges: Vec<(u64, u64)> = vec![(0, 65)];
+    for k in 1..=4096u64 { ranges.push((k * (1 << 14) - 64, 129)); }
+    for e in [30u32, 32, 40, 54, 62, 63] { ranges.push(((1u64 << e) - 64, 129)); }
+    // where `tail` wraps to a small value (a * 2^54 + b * 2^14 with 1023 b = a 2^40 - a)
+    for a in [1u64, 2, 33, 64, 65] { let bq = ((a << 40) - a) / 1023; let base = (a << 54) + (bq << 14); ranges.push((base - 64, 129)); }
+    let chunks: Vec<Vec<(u64, u64)>> = ranges.chunks(64).map(|c| c.to_vec()).collect();
+    let nc = chunks.len();
+    let res = par_tasks(nc, move |i| {
+        let mut lines = vec![];
+        let mut rep = Report::default();
+        for &(s, cnt) in &chunks[i] {
+            lines.push((format!("header bound {} {}", s, cnt), format!("{:016x}", bound_digest(s, cnt))));
+            let mut prev = 0u64;
+            for n in s..s + cnt {
+                rep.evaluations += 1;
+                let v = BrotliEncoderMaxCompressedSize(n as usize) as u64;
+                if n < (1 << 54) && v != spec_bound(n) { rep.violation("header:c08:bound-formula", &format!("Max({}) = {} != closed form {}", n, v, spec_bound(n)), format!("{{\"n\":\"{}\"}}", n)); }
+                if n > s && v < prev && n < (1 << 63) { rep.violation("header:c08:bound-not-monotone", &format!("Max({}) = {} < Max({}) = {}", n, v, n - 1, prev), format!("{{\"n\":\"{}\"}}", n)); }
+                if v < n && n < (1 << 63) { rep.violation("header:c08:bound-below-input", "bound smaller than the input", format!("{{\"n\":\"{}\"}}", n)); }
+                prev = v;
+                rep.nontrivial += 1;
+            }
+        }
+        (lines, rep)
+    });
+    for (lines, r) in res { for (a, bb) in lines { corr.case(&a, &bb); } rep.merge(r); }
+    // the top of the range: wrap to 0 and the `+ magic_size` overflow zone (values only; release arithmetic)
+    let mut tops: Vec<u64> = (0..70).map(|d| u64::MAX - d).collect();
+    {   // first n whose result wraps
+        let (mut lo, mut hi) = (1u64 << 63, u64::MAX);
+        while lo < hi { let mid = lo + (hi - lo) / 2; if BrotliEncoderMaxCompressedSize(mid as usize) == 0 { hi = mid } else { lo = mid + 1 } }
+        for d in 0..80 { tops.push(lo - 40 + d); }
+        rep.sample(format!("first n with Max(n) = 0: {}", lo));
+    }
+    for n in tops {
+        let v = BrotliEncoderMaxCompressedSize(n as usize);
+        // the model flags the debug-build overflow with `!`; a release build wraps silently
+        let over = v != 0 && (v as u64) < n;
+        corr.case(&format!("header boundv {}", n), &format!("{}{}", v, if over { "!" } else { "" }));
+        if over { rep.count("c08.bound.overflow_zone"); }
+        if v == 0 { rep.count("c08.bound.wrap_to_zero"); }
+    }
+    for (n, t) in [(0u64, 1u64), (100, 3), (1 << 14, 16), (1 << 20, 8), (12345678, 16), ((1 << 32) + 5, 2)] {
+        corr.case(&format!("header boundm {} {}", n, t), &format!("{}", BrotliEncoderMaxCompressedSizeMulti(n as usize, t as usize)));
+    }
+    // ---- (b)+(c) one-shot contract; stored stream through the fallback
+    let mut cases: Vec<OsCase> = vec![];
+    // stored-stream lengths (q0, lgwin 10 on incompressible data exceeds the bound => fallback)
+    let mut stored_ns: Vec<usize> = vec![8192, 12000, 16383, 16384, 16385, 65535, 65536, 65537, 70000, (1 << 20) - 1, 1 << 20, (1 << 20) + 1];
+    if thorough { stored_ns.extend_from_slice(&[(1 << 24) - 1, 1 << 24, (1 << 24) + 1, (1 << 24) + 65537]); }
+    for (j, &n) in stored_ns.iter().enumerate() { cases.push(OsCase { q: (j % 2) as i32, lgwin: 10, n, kind: 0, gen: Some(j as u64 + 1) }); }
+    let small_ns: Vec<usize> = vec![0, 1, 2, 3, 15, 100, 1000, 16383, 16384, 16385, 32767, 32768, 32769, 49152, 65535, 65536, 65537];
+    for q in 0..=11 {
+        for &lgwin in &[10, 16, 18, 22, 24, 25] {
+            for (j, &n) in small_ns.iter().enumerate() {
+                let kinds: &[u32] = if thorough { &[0, 1, 2, 3, 4] } else { &[0, 1, 2, 3] };
+                // quick tier: not every (n, lgwin, kind) at every quality
+                for &kind in kinds {
+                    if !thorough && (j + kind as usize + q as usize + lgwin as usize) % 4 != 0 && !(n <= 3) { continue; }
+                    cases.push(OsCase { q, lgwin, n, kind, gen: None });
+                }
+            }
+        }
+        let big_ns: &[usize] = if q <= 5 { &[(1 << 20) - 1, 1 << 20, (1 << 20) + 1] } else if thorough { &[1 << 20] } else { &[] };
+        for &n in big_ns { for &kind in &[0u32, 1] { cases.push(OsCase { q, lgwin: if q <= 1 { 18 } else { 22 }, n, kind, gen: None }); } }
+        if thorough && q <= 2 { cases.push(OsCase { q, lgwin: 22, n: (1 << 24) + 1, kind: 0, gen: None }); }
+    }
+    let ncases = cases.len();
+    let cases = std::sync::Arc::new(cases);
+    let res = par_tasks(ncases, move |i| {
+        let mut lines = vec![];
+        let mut rep = Report::default();
+        oneshot_case(&cases[i], seed, i, &mut lines, &mut rep);
+        (lines, rep)
+    });
+    for (lines, r) in res { for (a, bb) in lines { corr.case(&a, &bb); } rep.merge(r); }
+    // ---- (d) never-flushed stream at q >= 2 within the bound
+    let mut scases: Vec<(Cfg, usize, u32, usize)> = vec![];
+    let hints: [u64; 7] = [0, (1u64 << 32) - 1, 1 << 35, 1 << 42, 1 << 49, 1 << 56, 1 << 63];
+    let ns: Vec<usize> = vec![0, 1, 2, 3, 10, 100, 5000, 16383, 16384, 16385, 16386, 32768, 32770, 49153, 65536, 65538, 131072 + 2];
+    for q in 2..=11 {
+        for flags in 0..16u32 {
+            let (cat, app, magic, lw) = (flags & 1 != 0, flags & 2 != 0, flags & 4 != 0, flags & 8 != 0);
+            for (hi, &hint) in hints.iter().enumerate() {
+                if !magic && hi > 1 { continue; }
+                for (j, &n) in ns.iter().enumerate() {
+                    for kind in [0u32, 1] {
+                        if !thorough && n > 100 && (j + q as usize + flags as usize + hi + kind as usize) % 4 != 0 { continue; }
+                        if q >= 10 && n > 70000 && !thorough { continue; }
+                        let chunk = if (j + hi) % 2 == 0 { usize::MAX / 2 } else { 1000 };
+                        scases.push((Cfg { q, lgwin: if lw { 26 } else { 22 }, lw, cat, app, dict: !cat, magic, hint }, n, kind, chunk));
+                    }
+                }
+            }
+        }
+    }
+    let nsc = scases.len();
+    let scases = std::sync::Arc::new(scases);
+    let res = par_tasks(nsc, move |i| {
+        let (c, n, kind, chunk) = scases[i];
+        let mut rep = Report::default();
+        let mut rng = Rng::new(seed ^ 0x57e ^ ((i as u64) << 20));
+        let input = content(kind, n, &mut rng);
+        rep.evaluations += 1;
+        let bound = BrotliEncoderMaxCompressedSize(n);
+        match stream_encode(&c.params(), &input, chunk) {
+            Err(e) => rep.violation("header:c08:stream-failed", &e, c.json(&input)),
+            Ok(out) => {
+                rep.nontrivial += 1;
+                if out.len() > bound {
+                    let sig = if c.hint >= (1 << 32) { "header:c08:stream-exceeds-bound:size_hint-above-u32" } else { "header:c08:stream-exceeds-bound" };
+                    rep.violation(sig, &format!("never-flushed stream of {} input bytes is {} bytes > advertised bound {}", n, out.len(), bound),
+                        format!("{{\"quality\":{},\"lgwin\":{},\"large_window\":{},\"catable\":{},\"appendable\":{},\"magic_number\":{},\"size_hint\":\"{}\",\"n\":{},\"content\":{},\"chunk\":{},\"seed\":{},\"idx\":{}}}", c.q, c.lgwin, c.lw, c.cat, c.app, c.magic, c.hint, n, kind, chunk.min(1 << 40), seed, i));
+                }
+                let slack = bound as i64 - out.len() as i64;
+                rep.count(&format!("c08.stream.slack.{}", if slack < 0 { "negative".to_string() } else if slack < 4 { format!("{}", slack) } else if slack < 16 { "4-15".into() } else { "16+".into() }));
+            }
+        }
+        rep
+    });
+    for r in res { rep.merge(r); }
+}
+
 pub fn run_cmd(args: &Args) {
-    let corr = Corr::new(&args.out);
-    let rep = Report::default();
+    let mut corr = Corr::new(&args.out);
+    let mut rep = Report::default();
+    let what = args.rest.first().map(|s| s.as_str()).unwrap_or("all");
+    if what == "c15" || what == "all" { run_c15(args, &mut corr, &mut rep); }
+    if what == "c08" || what == "all" { run_c08(args, &mut corr, &mut rep); }
     corr.finish();
     rep.write(&args.out);
 }
